@@ -1063,6 +1063,88 @@ def write_if_changed(path, content):
     return True
 
 
+
+# ----------------------------------------------------------------------------
+# constants: package names/versions, default settings, the escape table of text.rs
+
+def lean_str(t):
+    return '"' + t.replace('\\', '\\\\').replace('"', '\\"').replace('\n', '\\n') + '"'
+
+
+def gen_consts(root):
+    import re as _re
+    out = ['-- GENERATED by tools/gen_tables.py from Cargo.toml, settings.rs, text.rs — do not edit',
+           'namespace Svgbob.Gen', '']
+    for crate, prefix in (('svgbob_server', 'server'), ('svgbob_cli', 'cli'), ('svgbob', 'lib')):
+        p = os.path.join(root, 'crates', crate, 'Cargo.toml')
+        src = read(p)
+        pkg = src.split('[dependencies]')[0]
+        name = _re.search(r'^name\s*=\s*"([^"]*)"', pkg, _re.M)
+        ver = _re.search(r'^version\s*=\s*"([^"]*)"', pkg, _re.M)
+        if not name or not ver:
+            raise GenError(p, 1, 'cannot find package name/version')
+        out.append('def %sPackageName : String := %s' % (prefix, lean_str(name.group(1))))
+        out.append('def %sPackageVersion : String := %s' % (prefix, lean_str(ver.group(1))))
+    # default settings
+    p = os.path.join(root, 'crates', 'svgbob', 'src', 'settings.rs')
+    src = read(p)
+    m = _re.search(r'impl Default for Settings \{.*?Settings \{(.*?)\}\s*\}\s*\}', src, _re.S)
+    if not m:
+        raise GenError(p, 1, 'cannot find Default for Settings')
+    body = m.group(1)
+    fields = dict((k, v.strip()) for k, v in _re.findall(r'^\s*(\w+):\s*(.*),\s*$', body, _re.M))
+    need = ['font_size', 'font_family', 'fill_color', 'background', 'stroke_color', 'stroke_width', 'scale',
+            'include_backdrop', 'include_styles', 'include_defs']
+    for k in need:
+        if k not in fields:
+            raise GenError(p, 1, 'default for %s not found' % k)
+
+    def sval(v):
+        mm = _re.match(r'"(.*)"\.into\(\)$', v)
+        if not mm:
+            raise GenError(p, 1, 'unexpected default %r' % v)
+        return lean_str(mm.group(1))
+
+    def fval(v):
+        fr = Fraction(v)
+        return '(%d, %d)' % (fr.numerator, fr.denominator)
+
+    out.append('')
+    out.append('def defaultFontSize : Nat := %d' % int(fields['font_size']))
+    out.append('def defaultFontFamily : String := %s' % sval(fields['font_family']))
+    out.append('def defaultFillColor : String := %s' % sval(fields['fill_color']))
+    out.append('def defaultBackground : String := %s' % sval(fields['background']))
+    out.append('def defaultStrokeColor : String := %s' % sval(fields['stroke_color']))
+    out.append('/-- numerator, denominator -/')
+    out.append('def defaultStrokeWidth : Nat × Nat := %s' % fval(fields['stroke_width']))
+    out.append('def defaultScale : Nat × Nat := %s' % fval(fields['scale']))
+    for k, nm in (('include_backdrop', 'defaultIncludeBackdrop'), ('include_styles', 'defaultIncludeStyles'),
+                  ('include_defs', 'defaultIncludeDefs')):
+        if fields[k] not in ('true', 'false'):
+            raise GenError(p, 1, 'unexpected default %r' % fields[k])
+        out.append('def %s : Bool := %s' % (nm, fields[k]))
+    # escape table of replace_html_char
+    p = os.path.join(root, 'crates', 'svgbob', 'src', 'buffer', 'fragment_buffer', 'fragment', 'text.rs')
+    src = read(p)
+    m = _re.search(r'fn replace_html_char.*?match ch \{(.*?)\n    \}', src, _re.S)
+    if not m:
+        raise GenError(p, 1, 'cannot find replace_html_char')
+    rows = _re.findall(r"'((?:\\.|[^'\\]))'\s*=>\s*Cow::from\(\"([^\"]*)\"\)", m.group(1))
+    if len(rows) < 5:
+        raise GenError(p, 1, 'escape table has only %d literal rows' % len(rows))
+    out.append('')
+    out.append('/-- the literal rows of `replace_html_char` (character, replacement) -/')
+    out.append('def escapeTable : List (Char × String) := [')
+    lits = []
+    for ch, rep in rows:
+        c = {"\\'": "'", '\\"': '"', '\\r': '\r', '\\0': '\0', '\\n': '\n', '\\\\': '\\'}.get(ch, ch)
+        lits.append('  (Char.ofNat %d, %s)' % (ord(c), lean_str(rep)))
+    out.append(',\n'.join(lits) + ']')
+    out.append('')
+    out.append('end Svgbob.Gen')
+    return '\n'.join(out) + '\n'
+
+
 def main(argv):
     if len(argv) != 3:
         sys.stderr.write('usage: gen_tables.py <repo_root> <out_dir>\n')
@@ -1087,6 +1169,7 @@ def main(argv):
         pc = Parser(p, read(p), grid)
         skip, crows = pc.circle_table()
         circle_lean = render_circle(p, skip, crows)
+        consts_lean = gen_consts(root)
     except GenError as e:
         sys.stderr.write('error: %s\n' % e)
         return 1
@@ -1094,7 +1177,7 @@ def main(argv):
     os.makedirs(out_dir, exist_ok=True)
     status = []
     for name, content in (('AsciiTable.lean', ascii_lean), ('UnicodeTable.lean', unicode_lean),
-                          ('CircleArt.lean', circle_lean)):
+                          ('CircleArt.lean', circle_lean), ('Consts.lean', consts_lean)):
         changed = write_if_changed(os.path.join(out_dir, name), content)
         status.append('%s %s' % (name, 'written' if changed else 'unchanged'))
 
